@@ -696,6 +696,21 @@ impl ConnectionPool {
     /// Check if the pool is paused and wait until it's resumed.
     pub async fn wait_paused(&self) -> bool {
         let waiter = self.paused_waiter.notified();
+
+        // Verification hook: widen the window between registering for the wake-up and
+        // reading the flag, so that a RESUME can be scheduled inside it.
+        #[cfg(pgcat_verif)]
+        {
+            let jitter_us = std::env::var("PGCAT_VERIF_JITTER_US")
+                .ok()
+                .and_then(|v| v.parse::<u64>().ok())
+                .unwrap_or(0);
+
+            if jitter_us > 0 {
+                tokio::time::sleep(std::time::Duration::from_micros(jitter_us)).await;
+            }
+        }
+
         let paused = self.paused.load(Ordering::Relaxed);
 
         if paused {
